@@ -1,3 +1,4 @@
+import GB.Base.LTS
 import GB.C16.Spec
 /-
   C16 — helper lemmas: the router invariant `Inv` (the whole concrete state is determined by the
@@ -702,5 +703,273 @@ theorem pinv_runP {s : State} (h : PInv s) (ops : List POp) : PInv (runP true s 
   | cons o os ih => simp only [runP, runWith]; exact ih (pinv_stepP h o)
 
 theorem pinv_afterP (ops : List POp) : PInv (afterP true ops) := pinv_runP pinv_init ops
+
+
+/-! ### the pool under concurrent use: every interleaving of the atomic steps of New / Get / Close -/
+
+/-- pool state plus the `New` calls that are between their LoadOrStore and the return of the constructor -/
+structure CState where
+  s : State
+  pending : List (Name × Nat)
+
+/-- one atomic step of some goroutine -/
+inductive CLabel
+  /-- `New`: `conns.LoadOrStore(name, controller)` (stores a fresh controller, or finds one: ErrAlreadyDialed) -/
+  | reserve (n : Name)
+  /-- the constructor of the pending `New` of controller `g` returns (ok / error) and `New` completes -/
+  | finish (n : Name) (g : Nat) (ok : Bool)
+  /-- `Get` by any goroutine (a usable result is kept) -/
+  | get (n : Name)
+  /-- `Close` on a controller that was handed out (first or repeated call) -/
+  | close (g : Nat)
+  /-- a caller opens a call on a kept connection -/
+  | call (n : Name)
+
+/-- the pending list without the completed construction -/
+def dropPending (l : List (Name × Nat)) (n : Name) (g : Nat) : List (Name × Nat) := l.filter (fun p => p ≠ (n, g))
+
+theorem mem_dropPending (l : List (Name × Nat)) (n m : Name) (g g' : Nat) :
+    (m, g') ∈ dropPending l n g ↔ (m, g') ∈ l ∧ ¬ (m = n ∧ g' = g) := by
+  simp only [dropPending, List.mem_filter, decide_eq_true_eq, ne_eq, Prod.mk.injEq]
+
+def cinit : CState := { s := init, pending := [] }
+
+def cstep (c : CState) : CLabel → Option CState
+  | .reserve n =>
+    match poolReserve c.s n with
+    | none => some c
+    | some s1 => some { s := s1, pending := (n, c.s.next) :: c.pending }
+  | .finish n g ok =>
+    if (n, g) ∈ c.pending then
+      let s1 := poolFinish true c.s n g ok
+      some { s := if ok then { s1 with issued := s1.issued ++ [g] } else s1,
+             pending := dropPending c.pending n g }
+    else none
+  | .get n => some { c with s := (get true c.s n).1 }
+  | .close g =>
+    if g ∈ c.s.issued then
+      match ctrlClose c.s g with
+      | none => some c            -- panics in the calling goroutine; the pool is untouched
+      | some s' => some { c with s := s' }
+    else none
+  | .call n => some { c with s := (call c.s n).1 }
+
+structure CInv (c : CState) : Prop where
+  /-- a pool entry is an unclosed controller under its own name: either complete (client stored,
+      connection open) or a reservation whose constructor is still running -/
+  entry : ∀ n g, c.s.conns n = some g →
+    g < c.s.next ∧ c.s.ctrlTarget g = n ∧ c.s.ctrlClosed g = false ∧
+    ((c.s.clientSet g = true ∧ c.s.connOpen g = true ∧ (n, g) ∉ c.pending) ∨
+     (c.s.clientSet g = false ∧ c.s.connOpen g = false ∧ (n, g) ∈ c.pending))
+  /-- a running construction still holds its reservation -/
+  pend : ∀ n g, (n, g) ∈ c.pending → c.s.conns n = some g
+  openIn : ∀ g, c.s.connOpen g = true → c.s.conns (c.s.ctrlTarget g) = some g
+  issuedOk : ∀ g, g ∈ c.s.issued →
+    g < c.s.next ∧ c.s.clientSet g = true ∧ (c.s.ctrlClosed g = false → c.s.connOpen g = true)
+  closed_lt : ∀ g, c.s.ctrlClosed g = true → g < c.s.next
+  client_lt : ∀ g, c.s.clientSet g = true → g < c.s.next
+
+theorem cinv_init : CInv cinit := by
+  constructor <;> simp [cinit, init]
+
+theorem cinv_step (c : CState) (l : CLabel) (c' : CState) (h : CInv c) (hs : cstep c l = some c') : CInv c' := by
+  cases l with
+  | reserve n =>
+    simp only [cstep, poolReserve] at hs
+    cases hn : c.s.conns n with
+    | some g => simp [hn] at hs; subst hs; exact h
+    | none =>
+      simp [hn] at hs; subst hs
+      have hcl : c.s.clientSet c.s.next = false := by
+        cases hc : c.s.clientSet c.s.next with
+        | false => rfl
+        | true => have := h.client_lt _ hc; omega
+      have hclosed : c.s.ctrlClosed c.s.next = false := by
+        cases hc : c.s.ctrlClosed c.s.next with
+        | false => rfl
+        | true => have := h.closed_lt _ hc; omega
+      have hopen : c.s.connOpen c.s.next = false := by
+        cases hc : c.s.connOpen c.s.next with
+        | false => rfl
+        | true => have := (h.entry _ _ (h.openIn _ hc)).1; omega
+      constructor
+      · intro m g hg
+        by_cases hm : m = n
+        · subst hm
+          simp at hg; subst hg
+          simp [hcl, hclosed, hopen]
+        · simp [hm] at hg
+          have e := h.entry m g hg
+          have hne : g ≠ c.s.next := by omega
+          simp [hne, hm, e.2.1, e.2.2.1]
+          refine ⟨by omega, ?_⟩
+          exact e.2.2.2
+      · intro m g hg
+        simp at hg
+        cases hg with
+        | inl hg => obtain ⟨a, b⟩ := hg; subst a; subst b; simp
+        | inr hg =>
+          have p := h.pend m g hg
+          have hm : m ≠ n := by intro e; subst e; rw [hn] at p; cases p
+          simp [hm, p]
+      · intro g hg
+        simp at hg
+        have hlt := (h.entry _ _ (h.openIn _ hg)).1
+        have hne : g ≠ c.s.next := by omega
+        have o := h.openIn g hg
+        have hne2 : c.s.ctrlTarget g ≠ n := by intro e; rw [e, hn] at o; cases o
+        simp [hne, hne2, o]
+      · intro g hg
+        simp at hg
+        have i := h.issuedOk g hg
+        exact ⟨by simp; omega, by simpa using i.2.1, by simpa using i.2.2⟩
+      · intro g hg; simp at hg ⊢; have := h.closed_lt g hg; omega
+      · intro g hg; simp at hg ⊢; have := h.client_lt g hg; omega
+  | finish n g ok =>
+    simp only [cstep] at hs
+    by_cases hp : (n, g) ∈ c.pending
+    · simp [hp] at hs; subst hs
+      have hc := h.pend n g hp
+      have e := h.entry n g hc
+      have hpend : c.s.clientSet g = false ∧ c.s.connOpen g = false := by
+        cases e.2.2.2 with
+        | inl x => exact absurd hp x.2.2
+        | inr x => exact ⟨x.1, x.2.1⟩
+      cases ok with
+      | true =>
+        simp [poolFinish]
+        constructor
+        · intro m g' hg'
+          simp at hg'
+          have e' := h.entry m g' hg'
+          by_cases hgg : g' = g
+          · subst hgg
+            have hm : m = n := by rw [← e'.2.1, e.2.1]
+            subst hm
+            simp [e'.1, e'.2.1, e'.2.2.1]
+            exact fun hx => ((mem_dropPending _ _ _ _ _).mp hx).2 ⟨rfl, rfl⟩
+          · simp [hgg, e'.1, e'.2.1, e'.2.2.1]
+            cases e'.2.2.2 with
+            | inl x => left; exact ⟨x.1, x.2.1, fun hx => x.2.2 ((mem_dropPending _ _ _ _ _).mp hx).1⟩
+            | inr x => right; exact ⟨x.1, x.2.1, (mem_dropPending _ _ _ _ _).mpr ⟨x.2.2, fun hx => hgg hx.2⟩⟩
+        · intro m g' hg'
+          simp at hg' ⊢
+          exact h.pend m g' ((mem_dropPending _ _ _ _ _).mp hg').1
+        · intro g' hg'
+          by_cases hgg : g' = g
+          · subst hgg; simp; rw [e.2.1]; exact hc
+          · simp [hgg] at hg'; simp; exact h.openIn g' hg'
+        · intro g' hg'
+          simp at hg'
+          cases hg' with
+          | inl hg' =>
+            have i := h.issuedOk g' hg'
+            have hgg : g' ≠ g := by intro x; subst x; rw [hpend.1] at i; cases i.2.1
+            simp [hgg]; exact i
+          | inr hg' => subst hg'; simp; exact e.1
+        · intro g' hg'; simp at hg' ⊢; exact h.closed_lt g' hg'
+        · intro g' hg'
+          by_cases hgg : g' = g
+          · subst hgg; simp; exact e.1
+          · simp [hgg] at hg' ⊢; exact h.client_lt g' hg'
+      | false =>
+        simp [poolFinish, hc]
+        constructor
+        · intro m g' hg'
+          by_cases hm : m = n
+          · simp [hm] at hg'
+          · simp [hm] at hg'
+            have e' := h.entry m g' hg'
+            refine ⟨e'.1, e'.2.1, e'.2.2.1, ?_⟩
+            cases e'.2.2.2 with
+            | inl x => left; exact ⟨x.1, x.2.1, fun hx => x.2.2 ((mem_dropPending _ _ _ _ _).mp hx).1⟩
+            | inr x => right; exact ⟨x.1, x.2.1, (mem_dropPending _ _ _ _ _).mpr ⟨x.2.2, fun hx => hm hx.1⟩⟩
+        · intro m g' hg'
+          have hg2 := (mem_dropPending _ _ _ _ _).mp hg'
+          have p := h.pend m g' hg2.1
+          have hm : m ≠ n := by
+            intro x; subst x
+            rw [hc] at p; cases p
+            exact hg2.2 ⟨rfl, rfl⟩
+          simp [hm, p]
+        · intro g' hg'
+          have o := h.openIn g' hg'
+          have hne : c.s.ctrlTarget g' ≠ n := by
+            intro x; rw [x, hc] at o; cases o
+            rw [hpend.2] at hg'; cases hg'
+          simp [hne, o]
+        · exact h.issuedOk
+        · exact h.closed_lt
+        · exact h.client_lt
+    · simp [hp] at hs
+  | get n =>
+    simp only [cstep] at hs
+    cases hs
+    unfold GB.C16.get
+    split
+    · exact ⟨h.entry, h.pend, h.openIn, h.issuedOk, h.closed_lt, h.client_lt⟩
+    · exact h
+  | close g =>
+    simp only [cstep] at hs
+    by_cases hi : g ∈ c.s.issued
+    · simp [hi] at hs
+      have i := h.issuedOk g hi
+      cases hcl : c.s.ctrlClosed g with
+      | true => simp [ctrlClose, hcl] at hs; subst hs; exact h
+      | false =>
+        simp [ctrlClose, hcl, i.2.1] at hs; subst hs
+        have ho : c.s.connOpen g = true := i.2.2 hcl
+        have own : c.s.conns (c.s.ctrlTarget g) = some g := h.openIn g ho
+        constructor
+        · intro m g' hg'
+          by_cases hm : m = c.s.ctrlTarget g
+          · simp [hm] at hg'
+          · simp [hm] at hg'
+            have e := h.entry m g' hg'
+            have hne : g' ≠ g := by intro x; subst x; exact hm e.2.1.symm
+            simp [hne]
+            exact e
+        · intro m g' hg'
+          have p := h.pend m g' hg'
+          have hm : m ≠ c.s.ctrlTarget g := by
+            intro x; subst x
+            rw [own] at p; cases p
+            have e := h.entry _ _ own
+            cases e.2.2.2 with
+            | inl x => exact x.2.2 hg'
+            | inr x => rw [x.1] at i; cases i.2.1
+          simp [hm, p]
+        · intro g' hg'
+          by_cases hgg : g' = g
+          · simp [hgg] at hg'
+          · simp [hgg] at hg'
+            have o := h.openIn g' hg'
+            have hne : c.s.ctrlTarget g' ≠ c.s.ctrlTarget g := by
+              intro x; rw [x, own] at o; cases o; exact hgg rfl
+            simp [hne, o]
+        · intro g' hg'
+          have i' := h.issuedOk g' hg'
+          refine ⟨i'.1, i'.2.1, ?_⟩
+          by_cases hgg : g' = g
+          · simp [hgg]
+          · simp [hgg]; exact i'.2.2
+        · intro g' hg'
+          by_cases hgg : g' = g
+          · subst hgg; exact i.1
+          · simp [hgg] at hg'; exact h.closed_lt g' hg'
+        · exact h.client_lt
+    · simp [hi] at hs
+  | call n =>
+    simp only [cstep] at hs
+    cases hs
+    unfold GB.C16.call
+    split
+    · exact h
+    · split
+      · exact ⟨h.entry, h.pend, h.openIn, h.issuedOk, h.closed_lt, h.client_lt⟩
+      · exact h
+
+theorem cinv_reachable (c : CState) (h : GB.LTS.Reachable cstep cinit c) : CInv c :=
+  GB.LTS.invariant cstep cinit CInv cinv_init cinv_step c h
 
 end GB.C16
